@@ -16,6 +16,8 @@ type Options struct {
 	MaxSteps       int64    `json:"max_steps"`
 	MaxAlloc       int      `json:"max_alloc"`
 	MaxPaths       int      `json:"max_paths"`
+	MaxWallS       int      `json:"max_wall_s"`
+	MaxViolations  int      `json:"max_violations"`
 	NoIfConv       bool     `json:"no_ifconv"`
 	ModeB          bool     `json:"mode_b"`
 	PoolStale      int      `json:"pool_stale"`
@@ -67,6 +69,7 @@ type JobResult struct {
 	IfConv       int                   `json:"ifconverted"`
 	Reordered    []string              `json:"reordered_loads"`
 	Truncated    bool                  `json:"truncated"`
+	Stopped      bool                  `json:"stopped_after_violations"`
 	SolverErrors []string              `json:"solver_errors"`
 	Samples      []Sample              `json:"samples"`
 	Wall         float64               `json:"wall_s"`
@@ -157,9 +160,20 @@ func (e *Explorer) runPath(m *Machine, it workItem) {
 		return
 	}
 	idx := jr.Paths
+	if idx == 0 {
+		jr.started = time.Now()
+	}
+	if jr.NViolations >= jr.job.Opt.MaxViolations {
+		// enough counterexamples: stop exploring this job (not a truncation)
+		jr.Stopped = true
+		jr.mu.Unlock()
+		return
+	}
 	jr.Paths++
-	if jr.job.Opt.MaxPaths > 0 && jr.Paths > jr.job.Opt.MaxPaths {
+	if (jr.job.Opt.MaxPaths > 0 && jr.Paths > jr.job.Opt.MaxPaths) ||
+		(jr.job.Opt.MaxWallS > 0 && time.Since(jr.started) > time.Duration(jr.job.Opt.MaxWallS)*time.Second) {
 		jr.Truncated = true
+		jr.Paths--
 		jr.mu.Unlock()
 		return
 	}
@@ -327,7 +341,16 @@ func runJobs(prog *ssa.Program, pkgs map[string]*ssa.Package, jobs []Job, worker
 			return nil, fmt.Errorf("job %s: no function %s in %s", j.Name, j.Func, j.Pkg)
 		}
 		if j.Opt.MaxSteps == 0 {
-			j.Opt.MaxSteps = 20_000_000
+			j.Opt.MaxSteps = 5_000_000
+		}
+		if j.Opt.MaxPaths == 0 {
+			j.Opt.MaxPaths = 400_000
+		}
+		if j.Opt.MaxWallS == 0 {
+			j.Opt.MaxWallS = 600
+		}
+		if j.Opt.MaxViolations == 0 {
+			j.Opt.MaxViolations = 12
 		}
 		if j.Opt.MaxAlloc == 0 {
 			j.Opt.MaxAlloc = 1 << 16
